@@ -120,7 +120,7 @@ class LoopCheck(Check):
         self.validate_against_numpy(ctx, cfg, env)
         return env
 
-    def validate_against_numpy(self, ctx, cfg, env):
+    def validate_against_numpy(self, ctx, cfg, env, stream="g"):
         """Translator validation for a whole run: a model of the path condition
         is turned into concrete coordinates / kernel outputs / index draws and a
         value table for L, PI, Q; the real sampler is run on NumPy over the
@@ -162,7 +162,7 @@ class LoopCheck(Check):
         LR._install()
         try:
             with LR._Tolerance(cfg.get("tol", 0.25)):
-                world = LR.World(cex, model).build().run()
+                world = LR.World(cex, model, rng=LR.CRng(model, stream, 0)).build().run()
         finally:
             from harness import smc_loop
 
@@ -375,6 +375,8 @@ class LoopCheck(Check):
             runs.append(env)
         if all(r.sampler.rng is not None and getattr(r.sampler.rng, "stream", None) == "user" for r in runs):
             loop_checks.compare_runs(ctx, runs[0], runs[1], "c20/identical", detail={"via": via})
+            if via == "sample":
+                self.validate_against_numpy(ctx, cfg, runs[0], stream="user")
         else:
             # the sampler did not keep the user's generator (reported above):
             # identical output cannot be expected from two fresh generators
